@@ -313,6 +313,7 @@ func runScenarios(env kit.Env, rep *kit.Report) {
 		{"S_local_suffix_above_committed_is_not_cut", scenarioFailClosedSuffix},
 		{"V_minority_tail_is_not_selected", scenarioMinorityTail},
 		{"C04_deposed_and_fenced_authority", scenarioAuthorityFencing},
+		{"C01_write_quorum_must_intersect", scenarioNonIntersectingQuorum},
 	} {
 		s, err := newScenario(rep)
 		if err != nil {
@@ -636,6 +637,40 @@ func scenarioAuthorityFencing(s *scenarioCtx) error {
 	if err == nil {
 		s.rep.Violate("C04", "scenario", fmt.Sprintf("append under term 3 acknowledged after term 4 fenced the owner: %+v", rc5),
 			map[string]any{"scenario": "authority-fencing", "schedule": s.log})
+	}
+	return nil
+}
+
+
+// The model's ASSUME 2*Q > N: a write quorum that does not intersect every other quorum cannot keep
+// C01 (an entry acknowledged on Q replicas must survive the outage of N-Q of them, i.e. be held by
+// N-Q+1).  With voters {1,2} and write quorum 1 an acknowledgement needs only the leader; the code is
+// expected to refuse such an authority.  If it is accepted the schedule goes on to the loss.
+func scenarioNonIntersectingQuorum(s *scenarioCtx) error {
+	a := mkAuthority(aid(1), 1, false)
+	a.Voters = []ch.NodeID{1, 2}
+	a.WriteQuorum = 1
+	inst, err := s.c.install(1, a, callTimeout)
+	s.note("Install(node 1, voters {1,2}, write quorum 1) -> %+v, %v", inst, err)
+	if err != nil {
+		return nil // refused: nothing can be acknowledged under it
+	}
+	s.isolate(1)
+	rc, cerr := s.c.commit(1, aid(1), mkCommand(1, 1, 1, 0), false, 2*time.Second)
+	s.note("Commit(node 1) isolated -> %+v, %v", rc, cerr)
+	if cerr == nil {
+		views := s.views()
+		h := 0
+		for _, v := range []ch.NodeID{1, 2} {
+			if uint64(len(views[v].ids)) >= rc.Last {
+				h++
+			}
+		}
+		if h < 2 {
+			s.rep.Violate("C01", "scenario", fmt.Sprintf(
+				"append acknowledged (%+v) while held by %d of the 2 voters under write quorum 1: an outage of voters-quorum = 1 replica loses it", rc, h),
+				map[string]any{"scenario": "non-intersecting-quorum", "schedule": s.log})
+		}
 	}
 	return nil
 }
